@@ -1,1 +1,45 @@
-From GV Require Import Pool.Model Pool.Observe Pool.Monitors.
+From GV Require Import Pool.Model Pool.Observe Pool.Monitors Pool.Reduce Pool.InvC04.
+
+(* C04: the connectivity state and picker published to gRPC always agree with the
+   pool (census of connection states, READY channels), and every change is
+   published; for every history (legal or not) and every map-iteration oracle.
+   Guard: the pool holds fewer than 2^64 connections in every state of the run
+   (the evaluator's counters are uint64). *)
+Theorem C04_holds : forall raw ops,
+  Forall (fun s => Z.of_nat (length (b_scstates s)) < W64)%Z (run_states raw init_bal ops) ->
+  monitor P04 raw (observe init_bal) (run raw init_bal ops) = true.
+Proof. exact C04_holds_proof. Qed.
+Print Assumptions C04_holds.
+
+(* non-vacuity: connections come up, fail, are refreshed and shut down; six publications *)
+Example c04_history :
+  let raw := Some (mkConfig 2 4 100 false 1 1 false []) in
+  let ops := [(OpResolver 1 CfgVal, []); (OpConnState 0 Connecting, []); (OpConnState 0 Ready, []);
+              (OpConnState 1 Ready, [1; 0]%nat); (OpPick 1 0 false [] (Some 5%Z) false, []);
+              (OpAdvance 2000000, []); (OpDone 0 DDeadlineClient [], []); (OpConnState 2 Ready, []);
+              (OpConnState 2 TransientFailure, []); (OpConnState 0 TransientFailure, []);
+              (OpConnState 0 Idle, []); (OpConnState 0 Connecting, []); (OpConnState 2 Shutdown, [])] in
+  map (fun ev => outs_pubs (ev_out ev)) (run raw init_bal ops) =
+    [[]; []; [(Ready, PSnap [0%nat])]; [(Ready, PSnap [1; 0]%nat)]; []; []; []; []; [(Ready, PSnap [0%nat])];
+     [(TransientFailure, PErr true)]; []; [(Connecting, PSnap [])]; []] /\
+  monitor P04 raw (observe init_bal) (run raw init_bal ops) = true.
+Proof. vm_compute. split; reflexivity. Qed.
+
+(* the monitor rejects a connection becoming READY without a publication *)
+Example c04_bad_unpublished_ready :
+  let o1 := mkObs true 1 0 0 0 Idle [] [] [(0%N, Idle)] [(0%N, 0%nat)] [mkSlot 0 0 0 0 0 false 0]
+                  4294967295 [] false (PErr false) 0 0 true in
+  let o2 := mkObs true 1 1 0 0 Ready [] [] [(0%N, Ready)] [(0%N, 0%nat)] [mkSlot 0 0 0 0 0 false 0]
+                  4294967295 [] false (PErr false) 0 0 true in
+  mon_from P04 None ms_init o1 [mkEvent (OpConnState 0 Ready) [] RNone [] (Some o2)] = false.
+Proof. vm_compute. reflexivity. Qed.
+
+(* ... and a published state that is not the census *)
+Example c04_bad_wrong_state :
+  let o1 := mkObs true 1 0 0 0 Idle [] [] [(0%N, Idle)] [(0%N, 0%nat)] [mkSlot 0 0 0 0 0 false 0]
+                  4294967295 [] false (PErr false) 0 0 true in
+  let o2 := mkObs true 1 1 0 0 Ready [] [] [(0%N, Ready)] [(0%N, 0%nat)] [mkSlot 0 0 0 0 0 false 0]
+                  4294967295 [] false (PSnap [0%nat]) 1 0 true in
+  mon_from P04 None ms_init o1
+    [mkEvent (OpConnState 0 Ready) [OUpdateState Connecting (PSnap [0%nat])] RNone [] (Some o2)] = false.
+Proof. vm_compute. reflexivity. Qed.
